@@ -16,6 +16,21 @@ CHECKS = {
     ),
 }
 
+CHECKS["C01"] = (
+    "Trees.tla + Events.tla + THL.tla + TraceDTL.tla",
+    "TLC: explicit enumeration of all reconciliations (L0) = Bellman recurrence (L1) = code-shaped THL state machine (L2) on every input of the bounded domain; each input replayed through reconcile_thl / reconcile_exhaustive / generate_all; larger random runs validated by a TLA+ trace spec",
+    "Model checking of the solver as a state machine (fill one object node per action, decode, rank) against a declarative event model, plus bounded-exhaustive spec->code replay (results compared with the TLC-computed minimum and valid set) and code->spec trace validation of larger runs; decides optimality, validity, totality and exact enumeration on the bound, samples beyond.",
+    "Trusts TLC and the event model of Events.tla (cross-checked against the package's evaluator by C06 and its exhaustive solver); costs restricted to spe <= dup + 2*floss (outside: known finding F-COHERENCE-DTL, witness replayed); object <= 4-5 leaves, species <= 4-6 leaves exhaustively, 5-7 leaves sampled.",
+    "5/C01",
+)
+CHECKS["C07"] = (
+    "Trees.tla + Events.tla + THL.tla (LcaFacts) + TraceDTL.tla",
+    "TLC invariant LcaFacts (LCA mapping valid, optimal, unique for floss > 0) over all inputs of the bounded DL cost space; reconcile_lca / reconcile_thl(hgt=inf) replayed on each; larger random trees validated by the trace spec",
+    "Model checking of the model fact on the specification, bounded-exhaustive replay of reconcile_lca against the LCA mapping defined on parent chains, trace validation for trees up to 10/8 leaves.",
+    "Trusts TLC, Events.tla; transfers forbidden through an infinite cost, spe = 0, dup/floss in 0..5.",
+    "5/C07",
+)
+
 NOT_YET = {}
 
 
